@@ -1766,6 +1766,19 @@ func runC20OperandDim(c *Ctx) {
 		if root == "geom.(Geometry).Dimension" || root == "geom.(GeometryCollection).Dimension" {
 			continue
 		}
+		// a helper introduced since the baseline that only the Dimension methods call is part of them
+		if rf := rootFunc(f); isNewHelper(rf) {
+			sites := c.P.callSitesOf(rf)
+			only := len(sites) > 0
+			for _, s := range sites {
+				if o := FuncName(rootFunc(s.Parent())); o != "geom.(Geometry).Dimension" && o != "geom.(GeometryCollection).Dimension" {
+					only = false
+				}
+			}
+			if only {
+				continue
+			}
+		}
 		fn := FuncName(f)
 		eachCall(f, func(call ssa.CallInstruction) {
 			if calleeName(call) != "geom.(Geometry).Dimension" {
